@@ -137,6 +137,9 @@ func (s ssStep) frame(i int, cfg ssCfg, tree string, handles map[int]string) []b
 		}
 	}
 	at := wire.St{Flags: s.AF, Size: uint64(s.Len), Perm: 0o640, Atime: 1_500_000_000, Mtime: 1_500_000_000}
+	if s.AF&wire.AExt != 0 {
+		at.Ext = [][2]string{{"note@example.com", "v1"}}
+	}
 	switch s.Op {
 	case "init":
 		return wire.Frame(wire.Init, wire.B{}.U32(3))
@@ -467,12 +470,60 @@ func ssGenChurn(rnd *rand.Rand, closeAll bool) []ssStep {
 // ---------- mutations (positions are frame-relative, so they survive a different scratch path) ----------
 
 type ssMut struct {
-	Kind  string `json:"kind"`            // none | cut | len | type | strlen | garbage | raw
+	Kind  string `json:"kind"`            // none | cut | len | type | strlen | field | garbage | raw
 	Frame int    `json:"frame,omitempty"` // frame index (0 = INIT)
 	Off   int    `json:"off,omitempty"`   // cut: bytes of Frame kept; strlen: offset of the length field inside Frame
 	Val   uint32 `json:"val,omitempty"`   // len/strlen: new field value; type: new type byte
 	Hex   string `json:"hex,omitempty"`   // garbage: appended bytes; raw: bytes inserted before Frame
 	Pipe  bool   `json:"pipe,omitempty"`  // send the whole stream at once (dedicated pipelining cases)
+	// field: the W-byte (4 | 8) integer field at Off of Frame := V64; the rest of the frame is kept.
+	// Fit (string-length fields): the string is cut or padded to the new length and the frame's length
+	// prefix follows, so the request stays well-formed and is DISPATCHED with the new length.
+	// Pad (attribute flags words): zero words are appended (length prefix follows) until the attribute
+	// block is as long as the new flags promise — the request is dispatched with the new flags.
+	W    int    `json:"w,omitempty"`
+	V64  uint64 `json:"v64,omitempty"`
+	Fit  bool   `json:"fit,omitempty"`
+	Pad  bool   `json:"pad,omitempty"`
+	Name string `json:"name,omitempty"` // what the field means (documentation of the case; not used by apply)
+}
+
+// applyField rewrites one integer field of frame g (see ssMut).
+func (m ssMut) applyField(g []byte) []byte {
+	if m.Off < 0 || m.Off+m.W > len(g) || (m.W != 4 && m.W != 8) {
+		return g
+	}
+	if m.Fit && m.W == 4 && m.Off >= 5 {
+		old := uint64(binary.BigEndian.Uint32(g[m.Off:]))
+		if m.V64 <= 1<<16 && uint64(m.Off+4)+old <= uint64(len(g)) {
+			str := append([]byte(nil), g[m.Off+4:m.Off+4+int(old)]...)
+			for uint64(len(str)) < m.V64 {
+				str = append(str, 'A')
+			}
+			tail := append([]byte(nil), g[m.Off+4+int(old):]...)
+			g = append(g[:m.Off+4:m.Off+4], str[:m.V64]...)
+			g = append(g, tail...)
+			binary.BigEndian.PutUint32(g[m.Off:], uint32(m.V64))
+			binary.BigEndian.PutUint32(g, uint32(len(g)-4))
+			return g
+		}
+	}
+	if m.W == 4 {
+		binary.BigEndian.PutUint32(g[m.Off:], uint32(m.V64))
+	} else {
+		binary.BigEndian.PutUint64(g[m.Off:], m.V64)
+	}
+	if m.Pad && m.Off >= 5 {
+		for k := 0; k < 16; k++ {
+			q, why := ssParseReq(g[4], g[5:])
+			if why != "" || !q.Soft {
+				break
+			}
+			g = append(g, 0, 0, 0, 0)
+			binary.BigEndian.PutUint32(g, uint32(len(g)-4))
+		}
+	}
+	return g
 }
 
 func (m ssMut) apply(frames [][]byte) []byte {
@@ -496,6 +547,8 @@ func (m ssMut) apply(frames [][]byte) []byte {
 				if m.Off+4 <= len(g) {
 					binary.BigEndian.PutUint32(g[m.Off:], m.Val)
 				}
+			case "field":
+				g = m.applyField(g)
 			case "raw":
 				out = append(out, raw...)
 			}
